@@ -1,16 +1,16 @@
 #!/usr/bin/env python3
 """Regenerates the seed tables of DESIGN.md §9 (between the markers) from /verif/seeded/*/meta.json."""
 import json, glob, os, re
-rows1, rows2, rows3, rows4, rows5, rows6, rows7, rows8 = [], [], [], [], [], [], [], []
+rows1, rows2, rows3, rows4, rows5, rows6, rows7, rows8, rows9 = [], [], [], [], [], [], [], [], []
 for d in sorted(glob.glob('/verif/seeded/*')):
     m = json.load(open(d + '/meta.json'))
     n = os.path.basename(d)
     det = m.get('detection') == 'DETECTED'
     by = ('`' + (m.get('detected_by') or '') + '`') if det else '**missed**'
-    if '-r2m' in n or '-r3m' in n or '-r4m' in n or '-r5m' in n or '-r6m' in n or '-r7m' in n or '-r8m' in n:
+    if '-r2m' in n or '-r3m' in n or '-r4m' in n or '-r5m' in n or '-r6m' in n or '-r7m' in n or '-r8m' in n or '-r9m' in n:
         fs = m.get('first_sweep', '')
         first = 'detected' if fs.startswith('DETECTED') else 'missed'
-        (rows2 if '-r2m' in n else rows3 if '-r3m' in n else rows4 if '-r4m' in n else rows5 if '-r5m' in n else rows6 if '-r6m' in n else rows7 if '-r7m' in n else rows8).append(f"| {n} | {m.get('what','')} | {first} | {by} | {m.get('history','')} |")
+        (rows2 if '-r2m' in n else rows3 if '-r3m' in n else rows4 if '-r4m' in n else rows5 if '-r5m' in n else rows6 if '-r6m' in n else rows7 if '-r7m' in n else rows8 if '-r8m' in n else rows9).append(f"| {n} | {m.get('what','')} | {first} | {by} | {m.get('history','')} |")
     else:
         rows1.append(f"| {n} | {m.get('what','')} | {by} | {m.get('history','')} |")
 def count(rows, col):
@@ -37,6 +37,9 @@ n7first = sum(1 for r in rows7 if r.split('|')[3].strip() == 'detected')
 t8 = "| seed | what the change does | first sweep | caught by (now) | history |\n|---|---|---|---|---|\n" + "\n".join(rows8)
 n8d = count(rows8, 4)
 n8first = sum(1 for r in rows8 if r.split('|')[3].strip() == 'detected')
+t9 = "| seed | what the change does | first sweep | caught by (now) | history |\n|---|---|---|---|---|\n" + "\n".join(rows9)
+n9d = count(rows9, 4)
+n9first = sum(1 for r in rows9 if r.split('|')[3].strip() == 'detected')
 s = open('/verif/DESIGN.md').read()
 a = s.index('<!-- SEEDS:BEGIN -->'); b = s.index('<!-- SEEDS:END -->')
 body = f"""<!-- SEEDS:BEGIN -->
@@ -119,6 +122,19 @@ a reordered pair of range tests, a `>=` that became `>`. Every miss was answered
 round's defect reports gave finding 108 and a report against one of *my own* repairs (finding 105, section 10).
 
 {t8}
+
+### Round 9 ({len(rows9)} confirmed seeds; {n9first} detected by the first sweep, {n9d} detected now, {len(rows9)-n9d} missed)
+
+Round 9 covered the ten claimed properties round 8 had left out (C01, C02, C03, C06, C07, C09, C10, C11, C16, C17), with
+the same instructions. One agent (C07) delivered one mutation only - every other candidate it tried was killed by the
+existing suite, and it listed them. Two deliveries met an existing rule, one met a generic rule whose package scope for
+its property was too narrow (`absent-is-nil` over package storage, registered for C09 and not for C01), the others
+were answered by the convention they broke (section 3, "Rules written in round 9"). The round's defect reports
+produced no new finding: every one was either recorded before (the two-snapshot `Seek`, the shallow trie copy, the
+non-canonical transaction encodings), mirrors the reference, or needs a store that has already lost nodes (section 6,
+"Round 9, not acted upon").
+
+{t9}
 
 """
 s = s[:a] + body + s[b:]
